@@ -156,6 +156,15 @@ Example repaired_on_witnesses :
   hist repaired [L wA; QNs (s1 97); L wA'; QNs (s1 97)] = [OLoad true; ONs (NsFound 1); OLoad true; ONs NsAmbiguous].
 Proof. repeat split; vm_compute; reflexivity. Qed.
 
+(* several revisions of one module share its namespace: the lookup answers with the most recent one, also when the
+   older one arrives later and a lookup lay in between; a different module with that namespace is the ambiguity *)
+Example namespace_of_revisions :
+  hist now [L wC1; QNs (s1 99); L wC2; QNs (s1 99)] = [OLoad true; ONs (NsFound 2); OLoad true; ONs (NsFound 3)] /\
+  hist now [L wC2; QNs (s1 99); L wC1; QNs (s1 99)] = [OLoad true; ONs (NsFound 3); OLoad true; ONs (NsFound 3)] /\
+  hist now [L wC1; L wC2; L (mk 9 KMod 100 [] 99 None [] [] [] []); QNs (s1 99)] =
+  [OLoad true; OLoad true; OLoad true; ONs NsAmbiguous].
+Proof. repeat split; vm_compute; reflexivity. Qed.
+
 Example no_partial_satisfiable :
   no_partial [] (map Load [Items [Good wA]; SyntaxErr; Items [Bad [13]; Good wG]; Items [Good wA]; Items [Good wC1; Good wC2]]) /\
   map (fun t => spec_load [wA] t) [Items [Good wA]; Items [Good wC1; Good wC1]; Items [Good wC1; Good wC2]] =
